@@ -191,6 +191,16 @@ def decide(prop, scratch, tier, seed, t0):
         forb = core.grep_forbidden()
     if forb:
         tie_broken.append("forbidden tokens in Lean sources: " + "; ".join(forb[:5]))
+    if tier == "thorough" and not aud["failed"]:
+        # independent re-check of the compiled proof modules by the toolchain's leanchecker
+        import subprocess
+        mods = core.property_modules(pid)
+        with core.BuildLock():
+            r = subprocess.run(["lake", "env", "leanchecker"] + mods, cwd=core.LEAN, capture_output=True, text=True, timeout=3000)
+        if r.returncode != 0:
+            tie_broken.append("leanchecker rejects the compiled proof modules: " + (r.stdout + r.stderr)[-400:])
+        else:
+            notes.append("leanchecker re-checked: " + ", ".join(mods))
     for n in aud["failed"]:
         tie_broken.append(f"theorem {n} no longer checks")
     if not os.path.exists(core.DRIVER):
